@@ -176,7 +176,12 @@ func (e *Engine) GenVCs(fn *ssa.Function, fc *FuncContract) (res *FuncResult) {
 		if fc == nil {
 			continue
 		}
-		sc := &specScope{x: x, fr: fr, st: o.St, old: fr.entry, results: map[string]Value{}}
+		sc := &specScope{x: x, fr: fr, st: o.St, old: fr.entry, results: map[string]Value{}, bound: map[string]Value{}}
+		// in postconditions parameter names denote the values passed in (as at call sites), whatever
+		// the body did to its local copies or shadowed them with
+		for i, p := range fn.Params {
+			sc.bound[p.Name()] = args[i]
+		}
 		for i := 0; i < sigRes.Len() && i < len(o.Rets); i++ {
 			if n := sigRes.At(i).Name(); n != "" && n != "_" {
 				sc.results[n] = o.Rets[i]
